@@ -33,8 +33,9 @@ def _spec(e, cp):
       stubs=["S2: lru_cache bypassed via __wrapped__"])
 def c13_a_table(e):
     cp = e.mk("cp", 0, 0x10FFFF)
-    got = cells._get_codepoint_cell_size.__wrapped__(cp)
-    again = cells._get_codepoint_cell_size.__wrapped__(cp)
+    f = getattr(cells._get_codepoint_cell_size, '__wrapped__', cells._get_codepoint_cell_size)
+    got = f(cp)
+    again = f(cp)
     return sym_and(got == _spec(e, cp), again == got)
 
 
@@ -46,7 +47,7 @@ def c13_a_char(e):
     cp = e.mk("cp", 0, 0x10FFFF)
     saved = cells._get_codepoint_cell_size
     cells.ord = lambda ch: ch
-    cells._get_codepoint_cell_size = saved.__wrapped__
+    cells._get_codepoint_cell_size = getattr(saved, '__wrapped__', saved)
     try:
         got = cells.get_character_cell_size(cp)
     finally:
@@ -440,3 +441,28 @@ def _mk_lru(nops, tiers, timeout):
 
 _mk_lru(3, ("quick", "thorough"), 300)
 _mk_lru(5, ("thorough",), 1500)
+
+
+# --- e2. results do not depend on what was measured before (P, real caches in place) -----------------------------------
+_HIST = ["", "a", "ab ", "a中b", "中中中", "á", "Supercalifragilistic", "a b"]
+
+
+@symx("C13-e-history-independence", timeout=900, kind="P",
+      functions=["rich/cells.py:cell_len", "rich/cells.py:set_cell_size", "rich/cells.py:chop_cells", "rich/cells.py:get_character_cell_size"],
+      bounds="sequences x, y, x over %d catalogue strings with the library's real caches in place (nothing unwrapped): cell_len, "
+             "set_cell_size(n in 0..6) and chop_cells(width in 2..6) return the same, reference-correct result on the repeated call "
+             "(strings and sizes solver-enumerated, native)" % len(_HIST),
+      outside="strings outside the catalogue; eviction of the 4096-entry caches (covered by the LRUCache(2) step obligations)")
+def c13_history(e):
+    from vf.common import ref_width_concrete
+    x = _HIST[int(e.mk("x", 0, len(_HIST) - 1))]
+    y = _HIST[int(e.mk("y", 0, len(_HIST) - 1))]
+    n = int(e.mk("n", 0, 6))
+    w = int(e.mk("w", 2, 6))
+    first = (cells.cell_len(x), cells.set_cell_size(x, n), cells.chop_cells(x, w))
+    cells.cell_len(y), cells.set_cell_size(y, n), cells.chop_cells(y, w)
+    again = (cells.cell_len(x), cells.set_cell_size(x, n), cells.chop_cells(x, w))
+    if first != again:
+        return False
+    return (first[0] == ref_width_concrete(x) and ref_width_concrete(first[1]) == n and "".join(first[2]) == x
+            and all(ref_width_concrete(p) <= w for p in first[2]))
